@@ -721,10 +721,13 @@ def run_job(exe, ctx, tag, case_path, ncases, shard, nshards, wrapper=(), extra_
         if r["rc"] == 0 or r["timed_out"]:
             break
         last_idx = None  # index (in the case file) of the case that was running when the process died
+        finished = False
         for t, cid, rd in read_obs(obs):
             if t == R_BEGIN:
                 last_idx = rd.u(4)
-        if last_idx is None or last_idx < start:
+            elif t == R_DONE:
+                finished = True  # all cases ran; the non-zero exit is LSan's end-of-process report
+        if finished or last_idx is None or last_idx < start:
             break  # died before its first case: restarting cannot help
         start = last_idx + 1
         if start >= ncases:
@@ -753,7 +756,9 @@ def absorb_runs(res, tag, group, runs, timeout):
         res.count("executor-aborts:" + group)
         if fatal:
             for k, w in fatal:
-                res.violation("%s[%s]" % (k, group), w, r["crumb"], meta=meta, stderr_tail=driver._tail_for(r["stderr"], w))
+                # leak reports (recoverable check or LSan's end-of-process pass) are not tied to one family
+                res.violation(k if k.startswith("lsan:") else "%s[%s]" % (k, group), w, r["crumb"], meta=meta,
+                              stderr_tail=driver._tail_for(r["stderr"], w))
             continue
         tail = r["stderr"][-3000:]
         if r["rc"] in (2, 3) or "[harness-error]" in tail:
